@@ -3,7 +3,7 @@
 # (thorough with --no-evidence does not touch evidence/: committed evidence must come from runs in /verif itself)
 tier=${1:-quick}; out=${2:-/tmp/sweep_$tier}; extra=$3
 cd "$(dirname "$0")/.."; mkdir -p "$out"; rm -f "$out/SUMMARY"
-for p in C16 C15 C18 C13 C10 C06 C04 C08 C17 C20 C11 C14 C19 C03 C09 C02 C07 C05 C01; do
+for p in ${ORDER:-C16 C15 C18 C13 C10 C06 C04 C08 C17 C20 C11 C14 C19 C03 C09 C02 C07 C05 C01}; do
   start=$(date +%s)
   ./bin/check $p $tier $extra > "$out/$p.log" 2>&1; rc=$?
   echo "$p rc=$rc wall=$(( $(date +%s) - start ))s $(grep -c '^VIOLATION' "$out/$p.log") violations; $(grep -m1 "^$p $tier:" "$out/$p.log")" >> "$out/SUMMARY"
